@@ -54,6 +54,7 @@ func underFastEnabled(in ssa.Instruction) bool {
 
 func checkC09(c *Ctx) {
 	l := c.L
+	checkNoWriteUnderRangeIterator(c, "CONTRACT-no-write-under-iterator")
 	c.rule("PASS-root-record", "existence and identity of a version come from its stored root record, not from the node cache or the working tree", 2)
 	checkRootRecord(c, "PASS-root-record")
 	c.rule("EFFECT-rollback-frame", "working state written by Set/Remove ⊆ state reset by Rollback", 3)
@@ -705,5 +706,79 @@ func checkOverwriteSequence(c *Ctx) {
 	passed := mustState(lvo, false, func(in ssa.Instruction) bool { cc := callCommon(in); return cc != nil && predStatic(commit)(cc) }, nil)
 	for _, r := range successReturns(lvo) {
 		c.decide("ORDER-overwrite-sequence", "LoadVersionForOverwriting success passes Commit", l.ipos(r), passed(r), "passes Commit", "a success return does not pass Commit")
+	}
+}
+
+// checkNoWriteUnderRangeIterator (C09): the store contract says "no writes may
+// happen within a domain while an iterator exists over it".  The rollback
+// deletes through the batch wrapper from inside the callback of its range
+// scans; the wrapper writes the batch to the store when it exceeds the flush
+// threshold, i.e. while the scan's iterator is open.  MemDB enforces the
+// contract with its lock: the write waits for the iterator, which is waiting
+// for the callback — the rollback never returns.
+func checkNoWriteUnderRangeIterator(c *Ctx, rule string) {
+	l := c.L
+	c.rule(rule, "the rollback does not mutate the (flushing) batch from inside its range scans", 2)
+	dvf := l.Func("", "*nodeDB.DeleteVersionsFrom")
+	tr := l.Func("", "*nodeDB.traverseRange")
+	bwf := l.NamedType("", "BatchWithFlusher")
+	if dvf == nil || tr == nil || bwf == nil {
+		c.anchorMissing(rule, "DeleteVersionsFrom / traverseRange / BatchWithFlusher")
+		return
+	}
+	var mutates func(fn *ssa.Function, depth int, seen map[*ssa.Function]bool) ssa.Instruction
+	mutates = func(fn *ssa.Function, depth int, seen map[*ssa.Function]bool) ssa.Instruction {
+		if fn == nil || seen[fn] || depth > 3 || len(fn.Blocks) == 0 {
+			return nil
+		}
+		seen[fn] = true
+		var hit ssa.Instruction
+		allInstrs(fn, func(in ssa.Instruction) {
+			if hit != nil {
+				return
+			}
+			cc := callCommon(in)
+			if cc == nil {
+				return
+			}
+			if cc.IsInvoke() && (cc.Method.Name() == "Delete" || cc.Method.Name() == "Set") && strings.HasSuffix(cc.Value.Type().String(), "store.Batch") {
+				hit = in
+				return
+			}
+			if g := staticCallee(cc); g != nil && l.inModule(g) {
+				if h := mutates(g, depth+1, seen); h != nil {
+					hit = in
+				}
+			}
+		})
+		return hit
+	}
+	n := 0
+	for _, in := range callsIn(dvf, predStatic(tr)) {
+		cc := callCommon(in)
+		// the callback argument
+		var cb *ssa.Function
+		for _, a := range cc.Args {
+			switch v := stripTrivial(a).(type) {
+			case *ssa.MakeClosure:
+				cb, _ = v.Fn.(*ssa.Function)
+			case *ssa.Function:
+				cb = v
+			}
+		}
+		if cb == nil {
+			continue
+		}
+		n++
+		hit := mutates(cb, 0, map[*ssa.Function]bool{})
+		pos := l.ipos(in)
+		if hit != nil {
+			pos = l.ipos(hit)
+		}
+		c.decide(rule, l.fname(cb)+" mutates the batch under the open range iterator", pos, hit == nil, "the callback only collects",
+			"the rollback queues its deletions from inside the callback of a range scan; the batch wrapper writes the batch to the store when it exceeds the flush threshold — while the scan's iterator is still open, which the store contract forbids (`no writes within a domain while an iterator exists over it`). MemDB enforces it with its lock: the write blocks on the iterator, the iterator on the callback, and LoadVersionForOverwriting / DeleteVersionsFrom never return once the erased versions exceed the threshold")
+	}
+	if n < 1 {
+		c.anchorMissing(rule, "no range scan with a callback in DeleteVersionsFrom")
 	}
 }
